@@ -114,53 +114,43 @@ pub fn clear_rules() {
 }
 
 pub fn append_rule(rule: Arc<Rule>) -> bool {
-    if CURRENT_RULES
-        .lock()
-        .unwrap()
+    // the three maps stay locked (in the same order as in `load_rules`) for the whole update
+    let mut current_rules = CURRENT_RULES.lock().unwrap();
+    if current_rules
         .get(&rule.resource)
-        .unwrap_or(&HashSet::new())
-        .contains(&rule)
+        .map_or(false, |rules| rules.contains(&rule))
     {
         return false;
     }
-    match rule.is_valid() {
-        Ok(_) => {
-            CURRENT_RULES
-                .lock()
-                .unwrap()
-                .entry(rule.resource.clone())
-                .or_default()
-                .insert(Arc::clone(&rule));
-            BREAKER_RULES
-                .write()
-                .unwrap()
-                .entry(rule.resource.clone())
-                .or_default()
-                .insert(Arc::clone(&rule));
-        }
-        Err(err) => logging::warn!(
-            "[Hot Spot append_rule] Ignoring invalid flow rule {:?}, reason: {:?}",
+    if let Err(err) = rule.is_valid() {
+        logging::warn!(
+            "[CircuitBreaker append_rule] Ignoring invalid circuit breaking rule {:?}, reason: {:?}",
             rule,
             err
-        ),
+        );
+        return true;
     }
+    current_rules
+        .entry(rule.resource.clone())
+        .or_default()
+        .insert(Arc::clone(&rule));
+    let mut breaker_map = BREAKER_MAP.write().unwrap();
+    let mut breaker_rules = BREAKER_RULES.write().unwrap();
+    let rules_of_res = breaker_rules.entry(rule.resource.clone()).or_default();
+    rules_of_res.insert(Arc::clone(&rule));
     let mut placeholder = Vec::new();
-    let new_tcs_of_res = build_resource_circuit_breaker(
+    // the breakers of unchanged rules are reused; the result replaces the resource's whole list
+    let new_cbs_of_res = build_resource_circuit_breaker(
         &rule.resource,
-        BREAKER_RULES.read().unwrap().get(&rule.resource).unwrap(),
-        BREAKER_MAP
-            .write()
-            .unwrap()
+        rules_of_res,
+        breaker_map
             .get_mut(&rule.resource)
             .unwrap_or(&mut placeholder),
     );
-    if !new_tcs_of_res.is_empty() {
-        BREAKER_MAP
-            .write()
-            .unwrap()
-            .entry(rule.resource.clone())
-            .or_default()
-            .push(Arc::clone(&new_tcs_of_res[0]));
+    if new_cbs_of_res.is_empty() {
+        breaker_map.remove(&rule.resource);
+    } else {
+        breaker_map.insert(rule.resource.clone(), new_cbs_of_res);
     }
     true
 }
